@@ -5,6 +5,10 @@
 // run their binary search over large arrays, and maps are rebuilt in shuffled insertion order before being compared.
 // The driver follows the documented API and never triggers an open finding listed in --avoid (it detaches the
 // handle with dup() first, or leaves the call out).
+// Wider surface (spec/FiniteMapExt.tla): containers constructed with a size argument and from key lists, m = m,
+// writes through find(), whole loops (foreach2 / range-based for), Set::array(), and enumerator sessions: an
+// Enumerator object is stepped through a container (often a fresh clone, or the source of one) while the other
+// handles keep being modified, values are assigned through the enumerator, and the loop is sometimes left early.
 #include "c02_common.h"
 #include "vrec.h"
 #include <map>
@@ -221,6 +225,55 @@ struct Exec
 				if (e.empty()) continue;
 			}
 			else if (r < 114) { check(); done++; continue; }
+			else if (r < 116) // a container constructed with a size argument
+			{
+				int g = pickDead() ? pickDead() : pickLive();
+				if (g == h && nLive() > 1 && rng.chance(50)) continue;
+				static const int NS[] = { 0, 0, 1, 2, 3, 5, 8, 9, 100, 257, 1000 };
+				int n = NS[rng.below(11)];
+				delete hs[g];
+				hs[g] = Kd::createSized(n);
+				e = "{\"op\":\"new\"," + kv("h", g) + "," + kv("g", g) + "," + kv("n", n) + post(g);
+			}
+			else if (r < 118) // a container built from a key/value list
+			{
+				int g = pickDead() ? pickDead() : pickLive();
+				std::vector<Entry> es;
+				int n = rng.below(6);
+				for (int i = 0; i < n; i++) { Entry x = { rng.chance(70) ? rng.range(1, 6) : pickKey(), Kd::isSet ? 1 : rng.range(1, NV) }; es.push_back(x); }
+				delete hs[g];
+				hs[g] = Kd::fromList(es, rng.below(3));
+				e = "{\"op\":\"list\"," + kv("h", g) + "," + kv("g", g) + ",\"kv\":[";
+				for (size_t i = 0; i < es.size(); i++) e += (i ? ",{" : "{") + kv("k", es[i].k) + "," + kv("v", es[i].v) + "}";
+				e += "]" + post(g);
+			}
+			else if (r < 120) { C& same = *hs[h]; *hs[h] = same; e = "{\"op\":\"assignSelf\"," + kv("h", h) + post(h); }
+			else if (r < 123) // write through the pointer find() returns
+			{
+				if (Kd::isSet) continue;
+				int k = rng.chance(70) ? presentKey(m) : pickKey();
+				if (k == 0) k = pickKey();
+				int v = rng.range(1, NV);
+				bool found = Kd::poke(m, k, v);
+				e = "{\"op\":\"poke\"," + kv("h", h) + "," + kv("k", k) + "," + kv("v", v) + "," + kv("r", found ? 1 : 0) + post(h);
+			}
+			else if (r < 125) // a whole loop
+			{
+				if (m.length() > 300) continue;
+				std::vector<Entry> es;
+				if (rng.chance(50)) Kd::enumerate2(m, es); else Kd::enumerate3(m, es);
+				e = "{\"op\":\"enum\"," + kv("h", h) + "," + kv("ord", Kd::ordered ? 1 : 0) + ",\"kv\":[";
+				for (size_t i = 0; i < es.size(); i++) e += (i ? ",{" : "{") + kv("k", es[i].k) + "," + kv("v", es[i].v) + "}";
+				e += "]" + post(h);
+			}
+			else if (r < 126) // Set::array() / Map::keys()
+			{
+				if (m.length() > 300 || !(Kd::isSet || Kd::ordered)) continue;
+				std::vector<int> ks;
+				Kd::keys(m, ks);
+				e = "{\"op\":\"array\"," + kv("h", h) + ",\"ks\":" + vj::intlist(ks.begin(), ks.end()) + post(h);
+			}
+			else if (r < 129) { done += session(h); continue; }
 			else continue;
 			log.line(e);
 			done++;
@@ -244,6 +297,112 @@ struct Exec
 		}
 		check();
 		for (int i = 1; i <= NH; i++) { delete hs[i]; hs[i] = 0; }
+	}
+
+	// An enumerator session on handle h0: optionally on a fresh clone of it (or with a fresh clone as the one that
+	// keeps changing), stepped entry by entry; between the steps the other handles are modified, values are
+	// assigned through the enumerator and through find(), handles are copied and dropped.  Nothing in here changes
+	// the key set of the enumerated block or rebinds the enumerated handle object.
+	long session(int h0)
+	{
+		long n = 0;
+		int h = h0;
+		if (rng.chance(60))
+		{
+			int g = pickDead() ? pickDead() : 0;
+			if (g)
+			{
+				hs[g] = Kd::create();
+				Kd::assignClone(*hs[g], *hs[h0]);
+				log.line("{\"op\":\"clone\"," + kv("h", h0) + "," + kv("g", g) + post(h0, g));
+				n++;
+				if (rng.chance(50)) h = g; // enumerate the clone while the source changes - or the source while the clone changes
+			}
+		}
+		if (hs[h]->length() > 400 && rng.chance(70)) return n;
+		const int form = rng.below(2);
+		EnumIface* en = Kd::openEnum(*hs[h], form);
+		int maxSteps = rng.chance(70) ? 1 << 30 : rng.range(0, 40);
+		int steps = 0;
+		std::string ev = "ebegin";
+		for (;;)
+		{
+			int k = en->more() ? en->key() : 0;
+			log.line("{\"op\":\"" + ev + "\"," + kv("h", h) + "," + kv("k", k) + "," + kv("r", k ? en->val() : 0) + "," + kv("ord", Kd::ordered ? 1 : 0) + post(h));
+			n++;
+			if (k == 0 || steps++ >= maxSteps) break;
+			// between two steps
+			int acts = rng.chance(50) ? 0 : rng.range(1, 3);
+			for (int a = 0; a < acts; a++)
+			{
+				int w = rng.below(10);
+				int g = pickLive();
+				bool sameBlock = Kd::block(*hs[g]) == Kd::block(*hs[h]);
+				if (w < 2 && !Kd::isSet) // *e = v
+				{
+					int v = rng.range(1, NV);
+					en->assign(v);
+					log.line("{\"op\":\"eassign\"," + kv("h", h) + "," + kv("k", k) + "," + kv("v", v) + post(h));
+					n++;
+				}
+				else if (w < 4 && !Kd::isSet) // write through find(), any handle
+				{
+					int kk = rng.chance(70) ? presentKey(*hs[g]) : pickKey();
+					if (kk == 0) continue;
+					int v = rng.range(1, NV);
+					bool found = Kd::poke(*hs[g], kk, v);
+					log.line("{\"op\":\"poke\"," + kv("h", g) + "," + kv("k", kk) + "," + kv("v", v) + "," + kv("r", found ? 1 : 0) + post(g));
+					n++;
+				}
+				else if (w < 7) // insert / remove through a handle of another block
+				{
+					if (sameBlock) continue;
+					if (rng.chance(60))
+					{
+						int kk = pickKey(), v = Kd::isSet ? 1 : rng.range(1, NV);
+						if (hazardPut(*hs[g], kk)) continue;
+						Kd::put(*hs[g], kk, v, rng.chance(50));
+						log.line("{\"op\":\"set\"," + kv("h", g) + "," + kv("k", kk) + "," + kv("v", v) + post(g));
+					}
+					else
+					{
+						int kk = rng.chance(70) ? presentKey(*hs[g]) : pickKey();
+						if (kk == 0) continue;
+						int res = Kd::remove(*hs[g], kk, rng.chance(50));
+						log.line("{\"op\":\"remove\"," + kv("h", g) + "," + kv("k", kk) + "," + kv("r", res) + post(g));
+					}
+					n++;
+				}
+				else if (w < 8) // lookups through any handle
+				{
+					int kk = rng.chance(50) ? presentKey(*hs[g]) : pickKey();
+					if (kk == 0) continue;
+					log.line("{\"op\":\"find\"," + kv("h", g) + "," + kv("k", kk) + "," + kv("r", Kd::find(*hs[g], kk)) + post(g));
+					n++;
+				}
+				else if (w < 9) // another handle on the enumerated block
+				{
+					int d = pickDead();
+					if (!d) continue;
+					hs[d] = new C(*hs[h]);
+					log.line("{\"op\":\"copyHandle\"," + kv("h", h) + "," + kv("g", d) + post(h, d));
+					n++;
+				}
+				else // drop a handle other than the enumerated one
+				{
+					if (g == h || nLive() < 3) continue;
+					delete hs[g];
+					hs[g] = 0;
+					log.line("{\"op\":\"dropHandle\"," + kv("h", g) + "}");
+					n++;
+				}
+			}
+			en->next();
+			ev = "estep";
+		}
+		delete en;
+		log.line("{\"op\":\"eend\"," + kv("h", h) + post(h));
+		return n + 1;
 	}
 
 	template <class T>
